@@ -66,6 +66,11 @@ func (lasfpong) Gen(rng *rand.Rand, tier string) []Case {
 			seeds = append(seeds, s[12:])
 		}
 	}
+	for _, s := range lnSeeds() { // the 16-octet presence pong literals of asf_presencepong_test.go
+		if len(s) == 16 && s[10]|s[11]|s[12]|s[13]|s[14]|s[15] == 0 {
+			seeds = append(seeds, s)
+		}
+	}
 	return lmGen(lasfpongDesc, lmGenCfg{valid: valid, hdrLen: func([]byte) int { return 16 }, seeds: seeds,
 		// maximal residue: every field set
 		residue: func(rng *rand.Rand) []byte {
